@@ -257,7 +257,7 @@ def prove(ctx, gen_modules, props_modules, thorough=False):
         # long names make Lean wrap the axiom list over several lines ("[propext,\n Classical.choice, …")
         text = re.sub(r'\n[ \t]+', ' ', out2)
         for line in text.split('\n'):
-            m = re.match(r"^'([^']+)' depends on axioms: \[(.*)\]", line)
+            m = re.match(r"^'(.+?)' depends on axioms: \[(.*)\]", line)   # names may contain a prime
             if m:
                 axs = [a.strip() for a in m.group(2).split(',') if a.strip()]
                 res['axioms'][m.group(1)] = axs
@@ -266,7 +266,7 @@ def prove(ctx, gen_modules, props_modules, thorough=False):
                     broken.add(m.group(1))
                     res['detail'].append('%s depends on non-whitelisted axioms %s' % (m.group(1), bad))
                 continue
-            m = re.match(r"^'([^']+)' does not depend on any axioms", line)
+            m = re.match(r"^'(.+?)' does not depend on any axioms", line)
             if m:
                 res['axioms'][m.group(1)] = []
         for (n, _, _) in names:
